@@ -304,4 +304,13 @@ def sendMessage (s : Side) (maxBodySize : Nat) (seq : Int) (mt : Bytes) (chan to
     { msgType := mt, channelID := chan, tokenID := tok, seq := r.2.toNat, requestID := req } body
   sendLoop s r.1 true raws
 
+/-- the numbers `uapolicy.Asymmetric(uri, localKey, remoteKey)` reports for key
+    sizes `localSize`, `remoteSize` (bytes) and the policy's plaintext overhead
+    `pad` per cipher block (`plainttextBlockSize: remoteKeySize - pad`); the C07
+    correspondence run compares them with the real constructors for every
+    policy and key-size pair -/
+def asymParams (localSize remoteSize pad : Nat) : AlgoParams :=
+  { name := "asym", blockSize := remoteSize, plaintextBlockSize := (remoteSize : Int) - pad,
+    signatureLength := localSize, remoteSignatureLength := remoteSize }
+
 end Opcua.Chunk
